@@ -1,0 +1,15 @@
+//go:build verif
+
+// Contracts for the deductive verifier in /verif (comment-only file; compiled out
+// unless the build tag `verif` is set, and even then contains no executable code).
+package diskstore
+
+// Schema contracts of the storage interface: a transaction method calls its function argument
+// exactly once and returns that call's result (assumed for the interface; the two
+// implementations are checked against it separately).
+//@ func (DiskStore).Read
+//@   trusted
+//@   invokes f
+//@ func (DiskStore).Write
+//@   trusted
+//@   invokes f
